@@ -226,6 +226,45 @@ fn proj_state(s: &Snap, sc: &Sc, pr: &mut Proj) -> (Value, Value, Value, Value) 
     (p, e, eta, soc)
 }
 
+/// Where the operating point of each efficiency lookup of an accepted step lies relative to the grid of its map:
+/// -1 below the first grid point, 0 inside, +1 above the last (flat units have no grid: 0).  fc: pwr_brake / rating,
+/// gen: |pwr_elec_prop_out| / rating, edrv: |pwr_out_req| / rating, battery: temperature, SOC before the step and
+/// C-rate of the electrical power (reversible_energy_storage.rs:550).  Projection of inputs only; counted by TLC.
+fn oog(sn: &Snap, soc_prev: f64, desc: &Value, sc: &Sc) -> Value {
+    let c = &desc["cfg"];
+    let side = |x: f64, g: Option<&Value>| -> i64 {
+        match g.and_then(|v| v.as_array()) {
+            Some(a) if !a.is_empty() => {
+                let lo = a[0].as_f64().unwrap_or(f64::NEG_INFINITY);
+                let hi = a[a.len() - 1].as_f64().unwrap_or(f64::INFINITY);
+                if x < lo {
+                    -1
+                } else if x > hi {
+                    1
+                } else {
+                    0
+                }
+            }
+            _ => 0,
+        }
+    };
+    let m = desc.get("maps");
+    let g = |k: &str| m.and_then(|v| v.get(k));
+    let rt = |k: &str| gf(c, k) / sc.ps;
+    let f = sn.fc.as_ref().map_or(0, |x| side(x.pwr_brake.value / rt("rfc"), g("frac_fc")));
+    let ge = sn.gen.as_ref().map_or(0, |x| side((x.pwr_elec_prop_out.value / rt("rgen")).abs(), g("frac_gen")));
+    let e = side((sn.edrv.pwr_out_req.value / rt("redrv")).abs(), g("frac_edrv"));
+    let (t, so, cr) = match (&sn.res, g("res_grid").and_then(|v| v.as_array())) {
+        (Some(r), Some(ax)) if ax.len() == 3 => (
+            side(r.temperature_celsius, Some(&ax[0])),
+            side(soc_prev, Some(&ax[1])),
+            side(r.pwr_out_electrical.value / (sc.cap_j / 3600.0), Some(&ax[2])),
+        ),
+        _ => (0, 0, 0),
+    };
+    json!({"f": f, "g": ge, "e": e, "rt": t, "rs": so, "rc": cr})
+}
+
 fn loco_params(desc: &Value) -> (Value, Sc) {
     let c = &desc["cfg"];
     let ps = gf(c, "ps");
@@ -370,6 +409,7 @@ fn exec(desc: &Value, tr: &mut Tracer) -> anyhow::Result<()> {
         }
         tr.emit(json!({"ev":"Pub","walk":false,"k":k+1,"eng":eng,"dtq":dtq,"pub":pb,"exact":pr.exact()}));
         let req = materialise(cls, &l, redrv, delta);
+        let soc_prev = snap_live(&l).and_then(|x| x.res.map(|r| r.soc.value)).unwrap_or(0.0);
         let save = l.clone();
         let r = l.solve_energy_consumption(uc::W * req, uc::S * dt, Some(eng));
         let mut pr = Proj::new();
@@ -384,7 +424,7 @@ fn exec(desc: &Value, tr: &mut Tracer) -> anyhow::Result<()> {
                     return Ok(());
                 }
                 accepted.push((dt, req, eng, dtq, tr.lines - base + 1));
-                tr.emit(json!({"ev":"Solve","walk":false,"k":k+1,"ref":0,"cls":cls,"req":reqq,"acc":true,"p":p,"e":e,"eta":eta,
+                tr.emit(json!({"ev":"Solve","walk":false,"k":k+1,"ref":0,"cls":cls,"req":reqq,"acc":true,"oog":oog(&sn, soc_prev, desc, &sc),"p":p,"e":e,"eta":eta,
                                "soc":soc,"i":l.state.i,"exact":pr.exact()}));
             }
             Err(e) => {
@@ -427,7 +467,8 @@ fn exec(desc: &Value, tr: &mut Tracer) -> anyhow::Result<()> {
             return Ok(());
         }
         tr.emit(json!({"ev":"Pub","walk":true,"k":k,"eng":eng,"dtq":dtq,"pub":pb,"exact":pr.exact()}));
-        tr.emit(json!({"ev":"Solve","walk":true,"k":k,"ref":rf,"cls":"hist","req":reqq,"acc":true,"p":p,"e":e,"eta":eta,
+        let soc_prev = hs[k - 1].res.as_ref().map_or(0.0, |r| r.soc.value);
+        tr.emit(json!({"ev":"Solve","walk":true,"k":k,"ref":rf,"cls":"hist","req":reqq,"acc":true,"oog":oog(sn, soc_prev, desc, &sc),"p":p,"e":e,"eta":eta,
                        "soc":soc,"i":sn.loco.i,"exact":pr.exact()}));
     }
     tr.emit(json!({"ev":"WalkEnd","ok":wr.is_ok(),"n":hs.len().saturating_sub(1),"want":accepted.len(),
@@ -442,18 +483,36 @@ fn pick_eta(r: &mut Rng) -> f64 {
     *r.pick(&[0.25, 0.375, 0.5, 0.625, 0.75, 0.875, 1.0])
 }
 
-/// dyadic 1-D map on fractions [0, 1/4, 1/2, 1] (or a sub-range, to hit the clamps of interp1d) whose
-/// x/eta is strictly increasing (required by Generator / ElectricDrivetrain::set_pwr_in_frac_interp)
-fn map1d(r: &mut Rng) -> (Vec<f64>, Vec<f64>) {
-    let xs: Vec<f64> = match r.range(0, 2) {
-        0 => vec![0.0, 0.25, 0.5, 1.0],
-        1 => vec![0.0, 0.125, 0.75], // requests above 3/4 of the rating clamp
+/// dyadic 1-D map.  Two thirds of the grids do NOT span the operating range [0, 1]: first point > 0 and last
+/// point < 1, so that requests below / above the grid hit the clamps of interp1d on both sides.  Half of those
+/// put eta = 1 on an end point with a lower neighbour: an extrapolating lookup leaves (0, 1] there at once.
+/// `increasing`: x/eta strictly increasing (required by Generator / ElectricDrivetrain::set_pwr_in_frac_interp).
+fn map1d(r: &mut Rng, increasing: bool, narrow: bool) -> (Vec<f64>, Vec<f64>) {
+    // narrow: only grids ending at <= 3/4 (for the component that is driven up to its own rating)
+    let xs: Vec<f64> = match if narrow { *r.pick(&[0i64, 2, 3]) } else { r.range(0, 5) } {
+        0 => vec![0.25, 0.5, 0.75],
+        1 => vec![0.125, 0.5, 0.875],
+        2 => vec![0.25, 0.75],
+        3 => vec![0.375, 0.5, 0.625],
+        4 => vec![0.0, 0.25, 0.5, 1.0],
         _ => vec![0.0, 0.5, 1.0],
     };
+    let n = xs.len();
     loop {
-        let es: Vec<f64> = xs.iter().map(|_| pick_eta(r)).collect();
+        let mut es: Vec<f64> = xs.iter().map(|_| pick_eta(r)).collect();
+        match r.range(0, 3) {
+            0 => {
+                es[0] = 1.0;
+                es[1] = *r.pick(&[0.5, 0.625, 0.75, 0.875]);
+            }
+            1 => {
+                es[n - 1] = 1.0;
+                es[n - 2] = *r.pick(&[0.75, 0.875]);
+            }
+            _ => {}
+        }
         let xin: Vec<f64> = xs.iter().zip(&es).map(|(x, e)| x / e).collect();
-        if xin.windows(2).all(|w| w[0] < w[1]) {
+        if !increasing || xin.windows(2).all(|w| w[0] < w[1]) {
             return (xs, es);
         }
     }
@@ -482,9 +541,9 @@ fn gen(seed: u64, n: usize, tier: &str) -> Vec<Value> {
     ];
     for k in 0..n {
         let mut r = Rng::new(seed.wrapping_mul(1_000_003).wrapping_add(k as u64));
-        let kind = ["conv", "bel", "conv", "bel", "hyb", "hyb"][k % 6];
+        let kind = ["conv", "bel", "conv", "bel", "hyb", "hyb", "conv", "conv"][k % 8];
         let (bel, hyb) = (kind == "bel", kind == "hyb");
-        let flat = k % 6 < 2 || k % 6 == 4; // flat unit (Level B comparable on the lattice) / mapped unit
+        let flat = k % 8 < 2 || k % 8 == 4; // flat unit (Level B comparable on the lattice) / mapped unit
         let ds = 4i64;
         let um = if hyb { 1024i64 } else { 1 }; // hybrids are real-sized: their generator carries a hard-coded 50 kW
         let steps_n = if hyb { r.range(6, maxsteps / 4 + 6) } else { r.range(8, maxsteps) };
@@ -495,9 +554,18 @@ fn gen(seed: u64, n: usize, tier: &str) -> Vec<Value> {
         } else if flat {
             *r.pick(&TOY)
         } else {
-            (r.range(16, 256) * 16, r.range(16, 256) * 16, r.range(16, 256) * 16, r.range(16, 256) * 16)
+            // mapped units: random ratings, or one component far below the others so that it runs up to its own
+            // rating (the top end of its efficiency map, beyond the last grid point of a non-spanning grid)
+            let b = r.range(16, 64) * 16;
+            match r.range(0, 5) {
+                0 | 1 if !bel => (b, 4 * b, 4 * b, 2 * b), // engine binds
+                2 | 3 if !bel => (4 * b, b, 4 * b, 2 * b), // generator binds
+                0 | 1 | 2 => (4 * b, 4 * b, 4 * b, b),     // battery binds (C-rate axis beyond +-1/2 C)
+                _ => (r.range(16, 256) * 16, r.range(16, 256) * 16, r.range(16, 256) * 16, r.range(16, 256) * 16),
+            }
         };
-        let warm = !bel && r.chance(1, 3);
+        let bound = !flat && !hyb && (rfc * 4 == rgen || rgen * 4 == rfc || rres * 4 == redrv);
+        let warm = !bel && (bound || r.chance(1, 3));
         let rmax = rfc.max(rres);
         let dts: &[i64] = if hyb { &[1, 2, 2, 4, 4, 8] } else { &[1, 2, 2, 4, 4, 8, 16] };
         // scale: cumulative fuel energy <= 4.2 * rating * dt_max * steps must stay below 2^28 units
@@ -509,12 +577,14 @@ fn gen(seed: u64, n: usize, tier: &str) -> Vec<Value> {
         let es = ps * ds;
         let pick_k = |r: &mut Rng| *r.pick(&[1i64, 2, 4]);
         let (kf, kg, ke, kr) = (pick_k(&mut r), pick_k(&mut r), pick_k(&mut r), pick_k(&mut r));
-        let lag = if flat { *r.pick(&[2i64, 4, 16]) } else { r.range(1, 30) };
+        let lag = if flat { *r.pick(&[2i64, 4, 16]) } else if bound { r.range(1, 4) } else { r.range(1, 30) };
         let floor_w = if flat || r.chance(1, 2) { rfc as f64 / 4.0 } else { rfc as f64 / 10.0 };
         let aux_w = if hyb {
             *r.pick(&[0.0, 8192.0, 50000.0])
         } else if flat {
             *r.pick(&[0.0, 2.0])
+        } else if bound {
+            r.range(0, 2) as f64
         } else {
             r.range(0, (rmax / 64).max(1)) as f64
         };
@@ -526,14 +596,19 @@ fn gen(seed: u64, n: usize, tier: &str) -> Vec<Value> {
         let cap_q = cap_j * es as f64;
         let soc16 = if r.chance(1, 4) { smin } else if r.chance(1, 6) { smax } else { r.range(smin, smax) };
         let mut maps = Map::new();
+        let mut ends = ((0i64, 0i64), (0i64, 0i64), (0i64, 0i64));
+        let bnd = if !bound { "n" } else if rfc * 4 == rgen { "f" } else if rgen * 4 == rfc { "g" } else { "r" };
         let mut keff = (kf, kg, ke, kr);
         let mut temp = 45.0;
         if !flat {
-            let (xf, ef) = (vec![0.0, 0.25, 0.5, 1.0], (0..4).map(|_| pick_eta(&mut r)).collect::<Vec<_>>());
-            let (xg, eg) = map1d(&mut r);
-            let (xe, ee) = map1d(&mut r);
+            let _ = ();
+            let (xf, ef) = map1d(&mut r, false, (bound && rfc * 4 == rgen) || (hyb && rfc < rgen));
+            let (xg, eg) = map1d(&mut r, true, bound && rgen * 4 == rfc);
+            let (xe, ee) = map1d(&mut r, true, false);
             let inv = |es: &[f64]| (1.0 / es.iter().cloned().fold(1.0, f64::min)).ceil() as i64;
             keff = (inv(&ef), inv(&eg), inv(&ee), kr);
+            let e2 = |x: &[f64]| ((x[0] > 0.0) as i64, (x[x.len() - 1] < 1.0) as i64);
+            ends = (e2(&xf), e2(&xg), e2(&xe));
             maps.insert("frac_fc".into(), json!(xf));
             maps.insert("eta_fc".into(), json!(ef));
             maps.insert("frac_gen".into(), json!(xg));
@@ -560,7 +635,7 @@ fn gen(seed: u64, n: usize, tier: &str) -> Vec<Value> {
         let (gssr, gssk) = if gss { (*r.pick(&[1i64, 2, 6]), *r.pick(&[1i64, 3, 60])) } else { (0, 0) };
         // demand programme: phases of limit riding, partial load, braking / regen, engine-off idling
         let mut steps = vec![];
-        let riding = r.chance(1, 2);
+        let riding = bound || r.chance(1, 2);
         while steps.len() < steps_n as usize {
             let phase = r.range(0, 9);
             let len = r.range(1, 12);
@@ -591,7 +666,11 @@ fn gen(seed: u64, n: usize, tier: &str) -> Vec<Value> {
             "shi": (cap_q as i64 / 16) * shi, "smax": (cap_q as i64 / 16) * smax,
             "delta": delta, "ps": ps, "ds": ds, "lat": flat && !gss && (hyb || ps >= 16), "assert": true,
             "pb0": if warm { q(rfc as f64) } else { 0 }, "haux": if hyb { 50000 * ps } else { 0 }, "split2": split2,
-            "gssr": gssr, "gssk": gssk});
+            "gssr": gssr, "gssk": gssk,
+            // design facts of the maps (code-independent): grid of fc / gen / edrv does not reach 0 (lo) / 1 (hi); which
+            // component is driven to its own rating; temperature below / above the battery grid
+            "glo_f": ends.0 .0, "ghi_f": ends.0 .1, "glo_g": ends.1 .0, "ghi_g": ends.1 .1, "glo_e": ends.2 .0, "ghi_e": ends.2 .1,
+            "bnd": bnd, "rtout": if !flat && (bel || hyb) { if temp < 0.0 { -1 } else if temp > 40.0 { 1 } else { 0 } } else { 0 }});
         let mut d = json!({"src":"gen","seed":seed,"k":k,"cfg":cfg,
             "soc0": if bel || hyb { (cap_q as i64 / 16) * soc16 } else { 0 },"steps":steps});
         if !flat {
